@@ -186,6 +186,7 @@ Del == /\ IsEv("del")
 Bad == /\ IsEv("bad")
        /\ Fails(CASE E.what \in {"settype", "setval", "gettype", "remtype", "memtype"} -> {"ValueError", "TypeError"}
                   [] E.what \in {"resizehuge", "resizemax"} -> {"OutOfMemoryError", "FormatError"}      \* (Tree: resizing to n > 0 is refused as such)
+                  [] E.what = "newinttypes" -> {"ValueError", "TypeError"}
                   [] OTHER -> {"ValueError"})          \* (setrefuse: the value type's own Assign refuses the value)
 
 Next == \/ Reset \/ End \/ New \/ Set \/ RemOk \/ RemFail \/ GetOk \/ GetFail \/ Mem
